@@ -23,7 +23,7 @@ EXPLANATION = ('Path rules over the CFGs of all template instantiations of the t
                'the step length l along every path of every get() against the number of units that passed their test, and a '
                'constant inequality over the lead-byte tables.  Which scalar a well-formed sequence decodes to is a run-time value '
                'and is not decided.')
-FLOORS = {'VALIDATEFIRST': 6, 'CONTGUARD': 3, 'ADVANCEBOUND': 3, 'LEADREJECT': 1, 'ITERSTEP': 2}
+FLOORS = {'VALIDATEFIRST': 9, 'CONTGUARD': 3, 'ADVANCEBOUND': 3, 'LEADREJECT': 2, 'ITERSTEP': 2}
 
 
 def _uniq(fns):
@@ -319,10 +319,121 @@ def iterstep(run, fx):
         run.broken('ITERSTEP', '*', 'expected >= 3 iterator instantiations, found %d' % seen)
 
 
+def validateback(run, fx):
+    """VALIDATEFIRST, the helper's own reads: _utf_codec<W>::validate(s, e) looks BACKWARDS from e to see whether the buffer ends inside a
+    multi-unit sequence.  Interpreted (rules/ordint.py) on buffers of 0..6 units and on an inverted range, every unit taking every
+    class of value the function's own constants distinguish: no unit outside [s, e) is read."""
+    from . import ordint as O
+    for w in (8, 16, 32):
+        fns = _uniq(fx.fns_named('graphite2::_utf_codec<%d>::validate' % w))
+        if not fns:
+            run.broken('VALIDATEFIRST', 'utf%d validate reads inside the buffer' % w, 'graphite2::_utf_codec<%d>::validate not found' % w)
+            continue
+        fn = fns[0]
+        consts = set()
+        for _, e in fn.elements():
+            if e['k'] == 'IntegerLiteral' and e.get('v') is not None:
+                consts.add(e['v'])
+        cands = sorted({min(max(0, c + d), (1 << w) - 1) for c in consts for d in (-1, 0, 1)} | {0, (1 << w) - 1})
+        paths = 0
+        prob = None
+        for n in range(-1, 7):
+            ch = O.Chooser()
+            while True:
+                ch.start()
+                vec = O.Vec([O.Lz(cands) for _ in range(max(n, 0) + 2)])
+                # the buffer proper is items[1 .. 1+n); one unit of foreign memory on either side that must never be touched
+                guard_lo, guard_hi = vec.items[0], vec.items[-1]
+                lo = 1 if n >= 0 else 2
+                it = O.Interp(fx, ch)
+                it.MAX_STEPS = 4000
+                inner = O.Vec(vec.items[1:1 + max(n, 0)])
+                try:
+                    it.call(fn, None, [O.It(inner, 0 if n >= 0 else 1), O.It(inner, n if n >= 0 else 0)])
+                except O.Violation as v:
+                    prob = 'buffer of %d unit(s): %s (%s)' % (n, v.what, v.loc)
+                paths += 1
+                if prob or not ch.advance():
+                    break
+            if prob:
+                break
+        inst = 'utf%d validate reads inside the buffer' % w
+        if prob:
+            run.violated('VALIDATEFIRST', inst, fn.where(), '_utf_codec<%d>::validate reads a code unit outside [s, e): %s -- gr_count_unicode_characters reads before buffer_begin / after buffer_end' % (w, prob))
+        else:
+            run.held('VALIDATEFIRST', inst, fn.where(), '%d abstract paths over buffers of -1..6 units, unit classes %s' % (paths, cands))
+
+
+def utf32range(run, fx):
+    """LEADREJECT's sibling for UTF-32: _utf_codec<32>::get, interpreted over an exact finite partition of the 32-bit code unit (the classes
+    distinguished by the function's own comparison constants and constant masks -- the unit is only compared and masked, anything else
+    is analysis-broken): every Unicode scalar value (0..D7FF, E000..10FFFF) is returned unchanged with length +1, every unit >= 110000 is
+    returned as U+FFFD with a negative length.  Nothing is demanded for surrogate code points (the tree passes them through)."""
+    from . import ordint as O
+    fns = _uniq(fx.fns_named('graphite2::_utf_codec<32>::get'))
+    inst = 'utf32 get accepts exactly the scalar range'
+    if not fns:
+        run.broken('LEADREJECT', inst, 'graphite2::_utf_codec<32>::get not found')
+        return
+    fn = fns[0]
+    cuts, masks = {0xD800, 0xE000, 0x110000}, set()
+    for _, e in fn.elements():
+        if e['k'] == 'BinaryOperator' and e['op'] == '&':
+            for c_ in e['c']:
+                v_ = fn.strip_all_casts(c_).get('v')
+                if v_:
+                    masks.add(v_)
+        elif e.get('v') is not None and e['k'] in ('IntegerLiteral', 'DeclRefExpr', 'ImplicitCastExpr') and e['v'] > 1:
+            cuts.add(e['v'] & 0xFFFFFFFF)
+    g = min([m & -m for m in masks] + [1 << 32])
+    period = max([1 << m.bit_length() for m in masks] + [1])
+    cands = set()
+    for c_ in cuts | masks:
+        for d in (-1, 0, 1):
+            cands.add((c_ + d) & 0xFFFFFFFF)
+    if g < (1 << 32):
+        top = max(cuts) + 2 * period
+        if top // g > 40000:
+            run.broken('LEADREJECT', inst, 'the partition of the code unit has more than 40000 classes (mask granularity %#x)' % g, fn.where())
+            return
+        cands |= set(range(0, top, g))
+        cands |= {(1 << 32) - period + k for k in range(0, period, g)}
+    cands |= {0, 1, 0x7F, 0x80, 0x7FF, 0x800, 0xFFFF, 0x10000, 0x10FFFF, 0x7FFFFFFF, 0x80000000, 0xFFFFFFFF}
+    cands = sorted(x for x in cands if 0 <= x < (1 << 32))
+    bad = None
+    n = 0
+    for v in cands:
+        unit = O.Lz([v])
+        lref = O.LV([None], 0)
+        it = O.Interp(fx)
+        it.MAX_STEPS = 500
+        try:
+            ret = it.call(fn, None, [O.It(O.Vec([unit]), 0), lref])
+        except O.Violation as ex:
+            bad = 'unit %#x: %s' % (v, ex.what)
+            break
+        n += 1
+        l = lref.load()
+        rv = ret.v if isinstance(ret, O.Lz) else ret
+        scalar = v < 0xD800 or 0xE000 <= v <= 0x10FFFF
+        if scalar and not (l == 1 and ret is unit):
+            bad = 'the scalar value U+%04X supplied as UTF-32 decodes to %s with length %s (expected itself, +1)' % (v, ('U+%04X' % rv) if isinstance(rv, int) else rv, l)
+            break
+        if v >= 0x110000 and not (isinstance(l, int) and l < 0 and rv == 0xFFFD):
+            bad = 'the code unit %#x (beyond U+10FFFF) decodes to %s with length %s (expected U+FFFD and a negative length)' % (v, ('U+%04X' % rv) if isinstance(rv, int) else rv, l)
+            break
+    if bad:
+        run.violated('LEADREJECT', inst, fn.where(), '_utf_codec<32>::get: ' + bad)
+    else:
+        run.held('LEADREJECT', inst, fn.where(), '%d value classes (cut points %s, masks %s)' % (n, sorted(hex(c_) for c_ in cuts), sorted(hex(m) for m in masks)))
+
+
 def run(run):
     fx = run.facts('Q0')
     validatefirst(run, fx)
+    validateback(run, fx)
     contguard(run, fx)
     advancebound(run, fx)
     leadreject(run, fx)
+    utf32range(run, fx)
     iterstep(run, fx)
